@@ -19,6 +19,9 @@ type establishedLink struct {
 	c *Controller
 	// lnk is the link.
 	lnk link.Link
+	// uuid is the key of the link in the controller links map.
+	// this is the uuid the link reported when it was established.
+	uuid uint64
 	// mlnk is the mounted link
 	mlnk link.MountedLink
 	// tpt is the transport
@@ -36,6 +39,7 @@ func newEstablishedLink(
 	rctx context.Context,
 	b bus.Bus,
 	lnk link.Link,
+	luuid uint64,
 	mlnk link.MountedLink,
 	tpt transport.Transport,
 	ctrl *Controller,
@@ -56,6 +60,7 @@ func newEstablishedLink(
 	el := &establishedLink{
 		le:     le.WithField("peer-id", lnk.GetRemotePeer().String()),
 		lnk:    lnk,
+		uuid:   luuid,
 		mlnk:   mlnk,
 		tpt:    tpt,
 		di:     di,
